@@ -91,7 +91,7 @@ theorem same_restart (st st' : NodeSt) (inst inst' : Instance) (round : String) 
     obtain ⟨i', o⟩ := r
     simp [hd] at h
     rw [← h.1]
-    exact same_saveFSM st round _
+    exact SameElsewhere.refl _ _
 
 /-- the node state a preliminary step ends with -/
 def preSt : Pre → NodeSt
@@ -209,7 +209,7 @@ theorem same_getInstance (st st1 : NodeSt) (round : String) (inst : Instance) (h
     simp only [hl] at h
     split at h
     · cases h
-    · simp at h; rw [← h.1]; exact same_saveFSM st round _
+    · simp at h; rw [← h.1]; exact SameElsewhere.refl _ _
 
 /-- **round_noninterference.** Handling a message of round `R` leaves the dump and the signature store
 of every other round exactly as they were — whatever the message is (genuine, rejected, duplicated,
